@@ -124,11 +124,34 @@ def run_verus(path, extra=()):
     return ' '.join(cmd), p.returncode, diags, other, js, wall
 
 
-def verify_unit(unit, repo, canary=False):
+def find_local_fn(repo, name):
+    """(file, fn) of a free function `name` defined in exactly one source file of the tree, else None"""
+    hits = []
+    src = os.path.join(repo, 'src')
+    for f in sorted(os.listdir(src)):
+        if f.endswith('.rs') and re.search(r'^\s*(?:pub(?:\([a-z]+\))?\s+)?fn\s+%s\s*[<(]' % re.escape(name), open(os.path.join(src, f)).read(), re.M):
+            hits.append(f)
+    return (hits[0], name) if len(hits) == 1 else None
+
+
+def verify_unit(unit, repo, canary=False, extra_stubs=()):
+    r = verify_unit_once(unit, repo, canary, extra_stubs)
+    # A helper function the unit does not know (introduced or newly called by a change): it is added as a stub - with its
+    # contract if it has one, otherwise with an arbitrary result, which is sound for the caller's proof - and the unit is
+    # verified again, so that the change is judged by the caller's contract instead of stopping the verifier.
+    m = re.search(r'cannot find function `(\w+)` in this scope', r.undecided or '')
+    if m and len(extra_stubs) < 4:
+        hit = find_local_fn(repo, m.group(1))
+        if hit and hit not in extra_stubs:
+            return verify_unit(unit, repo, canary, tuple(extra_stubs) + (hit,))
+    return r
+
+
+def verify_unit_once(unit, repo, canary=False, extra_stubs=()):
     r = UnitResult(unit)
     t0 = time.time()
     try:
-        out, info = extract.build(unit, repo, canary=canary)
+        out, info = extract.build(unit, repo, canary=canary, extra_stubs=extra_stubs)
     except extract.Undecided as e:
         r.undecided = str(e)
         return r
